@@ -13,6 +13,7 @@ import (
 	"os"
 	"path/filepath"
 	"reflect"
+	"regexp"
 	"runtime"
 	"strings"
 	"sync"
@@ -41,28 +42,26 @@ const (
 	avoidKnownDoubleUnaryMinus      = true // SELECT - -1       prints "--1" (a line comment)        roundtrip_reparse_fails:UnaryArithmetic
 	avoidKnownBangBeforeOperator    = true // SELECT ! !a       prints "!!a"; ! :p prints "!:p"      roundtrip_string_differs:UnaryLogic / roundtrip_reparse_fails:UnaryLogic
 	avoidKnownPositionalPlaceholder = true // SELECT ?          prints "?{1}"                        roundtrip_reparse_fails:Placeholder
-	avoidKnownIgnoreNulls           = true // FIRST_VALUE(a) IGNORE NULLS OVER () prints the keywords inside the parentheses   roundtrip_reparse_fails:AnalyticFunction
+	avoidKnownIgnoreNulls           = true // FIRST_VALUE(a) IGNORE NULLS OVER () prints the keywords inside the parentheses   roundtrip_reparse_fails:AnalyticFunction:ignore_nulls
 	avoidKnownUrlBeforePunctuation  = true // FROM file:./a.csv , t  prints "file:./a.csv, t": the URL token swallows ',' or ')'    roundtrip_reparse_fails:Url
-	avoidKnownQuotedFunctionName    = true // `my fn`(1)        prints MY FN(1)                      roundtrip_reparse_fails:Function (and AggregateFunction / AnalyticFunction with a quoted name)
+	avoidKnownQuotedFunctionName    = true // `my fn`(1)        prints MY FN(1)                      roundtrip_reparse_fails:Function:quoted_name (also AggregateFunction, ListFunction, AnalyticFunction)
 )
 
 // toleratedSigs lists the signatures of the shapes above (only consulted where
 // the input is not under the generator's control).
 func toleratedSig(sig string) bool {
-	switch sig {
-	case "roundtrip_reparse_fails:UnaryArithmetic":
+	switch {
+	case sig == "roundtrip_reparse_fails:UnaryArithmetic":
 		return avoidKnownDoubleUnaryMinus
-	case "roundtrip_string_differs:UnaryLogic", "roundtrip_reparse_fails:UnaryLogic":
+	case sig == "roundtrip_string_differs:UnaryLogic" || sig == "roundtrip_reparse_fails:UnaryLogic":
 		return avoidKnownBangBeforeOperator
-	case "roundtrip_reparse_fails:Placeholder":
+	case sig == "roundtrip_reparse_fails:Placeholder":
 		return avoidKnownPositionalPlaceholder
-	case "roundtrip_reparse_fails:Url", "roundtrip_string_differs:Url":
+	case sig == "roundtrip_reparse_fails:Url" || sig == "roundtrip_string_differs:Url":
 		return avoidKnownUrlBeforePunctuation
-	case "roundtrip_reparse_fails:AnalyticFunction":
-		return avoidKnownIgnoreNulls || avoidKnownQuotedFunctionName
-	case "roundtrip_reparse_fails:Function", "roundtrip_string_differs:Function",
-		"roundtrip_reparse_fails:AggregateFunction", "roundtrip_string_differs:AggregateFunction",
-		"roundtrip_string_differs:AnalyticFunction", "roundtrip_reparse_fails:ListFunction", "roundtrip_string_differs:ListFunction":
+	case sig == "roundtrip_reparse_fails:AnalyticFunction:ignore_nulls":
+		return avoidKnownIgnoreNulls
+	case strings.HasSuffix(sig, ":quoted_name") && strings.HasPrefix(sig, "roundtrip_"):
 		return avoidKnownQuotedFunctionName
 	}
 	return false
@@ -636,13 +635,29 @@ func blame(q parser.SelectQuery, prep, ansi bool) string {
 			return false
 		}
 		if !survives(typ, s, prep, ansi) {
-			culprit = typ
+			culprit = typ + refine(n)
 			return true
 		}
 		return false
 	})
 	return culprit
 }
+
+// refine separates root causes that share a node type.
+func refine(n interface{}) string {
+	rv := reflect.ValueOf(n)
+	if f := rv.FieldByName("Name"); f.IsValid() && f.Kind() == reflect.String && rv.FieldByName("Args").IsValid() {
+		if !plainName.MatchString(f.String()) {
+			return ":quoted_name" // the function name was a quoted identifier; String() prints it bare and upper-cased
+		}
+	}
+	if af, ok := n.(parser.AnalyticFunction); ok && !af.IgnoreType.IsEmpty() {
+		return ":ignore_nulls"
+	}
+	return ""
+}
+
+var plainName = regexp.MustCompile(`^[\p{L}_][\p{L}\p{Nd}_]*$`)
 
 // collectQueries returns the outermost SelectQuery nodes of a statement.
 func collectQueries(st parser.Statement) []parser.SelectQuery {
@@ -756,11 +771,31 @@ func roundTripEval(src, s1 string, prep, ansi bool) (string, *fw.Violation) {
 		return "eval:skipped", nil
 	}
 	if !sameEval(a, b) {
-		// guard against a query that is not a function of its text (not expected with the admitted functions)
-		if a2 := evalText(src, prep, ansi); a2.skipped != "" || !sameEval(a, a2) {
-			return "eval:nondeterministic", nil
+		// csvq's evaluation is not always a function of the query (e.g. several analytic functions whose ORDER BY
+		// keys tie are evaluated in map order, lib/query/field_analyzer.go appendAnalyticFunctionToListIfNotExist):
+		// sample both texts repeatedly and report only when the two sets of outcomes stay disjoint.
+		as, bs := []evalRes{a}, []evalRes{b}
+		overlap := func() bool {
+			for _, x := range as {
+				for _, y := range bs {
+					if sameEval(x, y) {
+						return true
+					}
+				}
+			}
+			return false
 		}
-		return "", fw.V("roundtrip_eval_differs", "prepared=%v ansi=%v: %s evaluates to %s but its printed form %s evaluates to %s", prep, ansi, clipq(src), a, clipq(s1), b)
+		for i := 0; i < 16; i++ {
+			a2, b2 := evalText(src, prep, ansi), evalText(s1, prep, ansi)
+			if a2.skipped != "" || b2.skipped != "" {
+				return "eval:skipped", nil
+			}
+			as, bs = append(as, a2), append(bs, b2)
+			if overlap() {
+				return "eval:nondeterministic", nil
+			}
+		}
+		return "", fw.V("roundtrip_eval_differs", "prepared=%v ansi=%v: %s evaluates to %s but its printed form %s evaluates to %s (17 evaluations of each, no common outcome)", prep, ansi, clipq(src), a, clipq(s1), b)
 	}
 	if a.errCls != "" {
 		return "eval:error", nil
